@@ -25,6 +25,8 @@ LEVEL = "other"
 
 def panic_class(msg):
     m = msg.lower()
+    if "cannot be disambiguated" in m:
+        return "ambiguous-children"
     if "could not parse code" in m:
         return "rust-tokens-unparsable"
     if "cannot construct integer" in m:
